@@ -97,7 +97,9 @@ def valid_name(name):
         isinstance(name, str)
         and len(name) > 0
         and len(name) < 81
-        and not re.search(r"^.*[ <>{}[\]?*\"#%\\^|~`$&,;:/].*$", name)
+        # (search the whole name: "." does not match a line break, and control
+        # characters are not allowed in names either)
+        and not re.search(r"[ <>{}[\]?*\"#%\\^|~`$&,;:/\x00-\x1f\x7f-\x9f]", name)
     )
 
 def valid_role_arn(arn):
